@@ -39,6 +39,8 @@ class BinarySearchTreeAdapted1D(Sampling):
         super().__init__()
         self.model = model
         self.axis = grid.axes[0]
+        # the cells of the states are the grid's own (a probability-step grid does not cut a gap at its arithmetic middle)
+        self._middle = grid.middle
         self.uniform = Uniform()
 
         self.intensity_of_jumps = intensity_of_jumps
@@ -70,8 +72,11 @@ class BinarySearchTreeAdapted1D(Sampling):
         while left != right:
             middle = (left + right) // 2
             l, r = left, middle  # choose left interval by default
-            a, b = 0.5 * (axis[max(0, l - 1)] + axis[l]), 0.5 * (
-                axis[r] + axis[min(len(axis) - 1, r + 1)]
+            a = axis[0] if l == 0 else self._middle(axis[l - 1], axis[l])
+            b = (
+                axis[-1]
+                if r == len(axis) - 1
+                else self._middle(axis[r], axis[r + 1])
             )
             p = self._compute_probability(a, b)
 
